@@ -224,6 +224,41 @@ def get_base():
     raise ToolError("could not obtain Base from TLC:\n" + r.stdout[-2000:])
 
 
+def spec_registry():
+    """The instruction names the specification gives a meaning to (PushMatch.Registry), printed by TLC once and cached
+    by the content hash of the specification modules."""
+    ensure_links()
+    h = hashlib.sha1()
+    for f in sorted(os.listdir(SPEC)):
+        if f.startswith("Push") and f.endswith(".tla"):
+            h.update(open(os.path.join(SPEC, f), "rb").read())
+    cache = os.path.join(VERIF, "out", "specreg_%s.json" % h.hexdigest()[:12])
+    if os.path.exists(cache):
+        return json.load(open(cache))
+    os.makedirs(os.path.join(VERIF, "out"), exist_ok=True)
+    mod = "MCreg_%d" % os.getpid()
+    with open(os.path.join(MC, mod + ".tla"), "w") as f:
+        f.write('---- MODULE %s ----\nEXTENDS PushMatch, Json, TLC\nASSUME PrintT("REG " \\o ToJson(SetAsSeq(Registry)))\n====\n' % mod)
+    cfg = os.path.join(VERIF, "out", mod + ".cfg")
+    open(cfg, "w").write("")
+    r = run(["timeout", "300", "tlc", "-workers", "1", "-config", cfg, "-metadir", os.path.join(VERIF, "out", "states_" + mod),
+             "-cleanup", "-noGenerateSpecTE", mod + ".tla"], cwd=MC, env=tlc_env())
+    for f in (os.path.join(MC, mod + ".tla"), cfg):
+        try:
+            os.remove(f)
+        except OSError:
+            pass
+    shutil.rmtree(os.path.join(VERIF, "out", "states_" + mod), ignore_errors=True)
+    for line in r.stdout.splitlines():
+        if line.startswith('"REG '):
+            reg = sorted(json.loads(json.loads(line)[4:]))
+            tmp = cache + ".%d" % os.getpid()
+            json.dump(reg, open(tmp, "w"))
+            os.replace(tmp, cache)
+            return reg
+    raise ToolError("could not obtain Registry from TLC:\n" + r.stdout[-2000:])
+
+
 def expand_cases(cases, base, prefix):
     """TLC prints only the fields that differ from the sentinel state."""
     out = []
